@@ -226,10 +226,15 @@ let run_session (line : string) : string =
        let conns = if String.trim conns = "-" then [] else
          List.map (fun c -> let c = String.trim c in if c = "." || c = "" then [] else List.map parse_reaction (String.split_on_char ',' c))
            (split_on_string_keep " / " conns) in
-       let calls = List.map (fun c -> let c = String.trim c in
-           if c = "disc" then M.SDisc else M.SSend (msgs_of_sx (sx_of_string (String.sub c 5 (String.length c - 5)))))
-           (split_on_string_keep " ; " calls) in
+       (* send <list>: Client.SendMultiple; send1 <one-element list>: Client.Send; disc: Client.Disconnect *)
+       let call_strs = List.map String.trim (split_on_string_keep " ; " calls) in
+       let is_one c = String.length c > 6 && String.sub c 0 6 = "send1 " in
+       let calls = List.map (fun c ->
+           if c = "disc" then M.SDisc
+           else if is_one c then M.SSend (msgs_of_sx (sx_of_string (String.sub c 6 (String.length c - 6))))
+           else M.SSend (msgs_of_sx (sx_of_string (String.sub c 5 (String.length c - 5))))) call_strs in
        let (evs, rs) = M.session cfg conns calls in
+       let rs = (try List.map2 (fun c r -> if is_one c then M.send_one_result r else r) call_strs rs with Invalid_argument _ -> rs) in
        let tcp = (mode = "tcp") in
        let ev_str e = match e with
          | M.EvDial _ | M.EvDialFail | M.EvFrame _ | M.EvGranted _ -> None
